@@ -48,7 +48,10 @@ CLAIM = dict(
          "loop only splitSize_terminates_of_contraction under a stated geometric contraction hypothesis, and "
          "splitLoop_fuel_irrelevant: extra fuel never changes a finished result), and that "
          "the float pre-filter of exclude_equiv_points puts equivalent points into one group (hypothesis hcov of "
-         "excludeEquiv_spec; exercised by the correspondence).  run()'s own selection of points is exercised through real run() calls in the oracle.",
+         "excludeEquiv_spec; the key distGamma is modelled by distGammaSq: distGamma_is_true_distance / "
+         "distGamma_equal_for_equivalent when the search box contains the minimiser, narrow_box_splits_equivalent_points "
+         "for a box of +-1 on a sheared basis - this piece is tied to the code by the oracle on sheared lattices only; "
+         "exercised by the correspondence).  run()'s own selection of points is exercised through real run() calls in the oracle.",
 )
 TRUSTED = [
     "modelled: PointSymmetry.transform_reduced_vector, PointGroup.star, Grid.get_K_list, KpointBZparallel.absorb/equiv/"
